@@ -282,7 +282,10 @@ class RefFit:
             return None
         V = self.total_cov(p) if (fid in NEEDS_ERRORS or fid in ("ga_cov", "ga_pw")) else None
         c = cost_formula(fid, self.d, self.model_values(p), V, with_logdet=False) + self.constraint_cost(p)
-        sat = cost_formula(fid, self.d, self.d, V, with_logdet=False)
+        if fid in ("chi2_noerr", "chi2_cov", "chi2_pw", "nllr_gauss", "ga_cov", "ga_pw"):
+            sat = 0.0  # pure quadratic forms of the residuals: zero for model == data (also where V~ = V + diag(d) is singular)
+        else:
+            sat = cost_formula(fid, self.d, self.d, V, with_logdet=False)
         return c - sat
 
     def logdet(self, p=None):
